@@ -53,11 +53,33 @@ Definition subst_op (σ : nmap) (o : op) : op :=
 Definition expand (l : list nop) : res (list op) :=
   σ <- name_map ∅ l ;; Ok (subst_op σ <$> (n_op <$> l)).
 
-(** a failing expansion fails the whole transaction at its first result *)
+(** the lenient pass 1 behind a failing expansion: an insert whose name is
+    taken by another UUID is left out of the map, the others keep their names;
+    the index of the first such insert is where the transaction fails *)
+Fixpoint name_map_lenient (σ : nmap) (i : nat) (l : list nop) : nmap * option nat :=
+  match l with
+  | [] => (σ, None)
+  | mkNop (OInsert t u w) (Some nm) :: l' =>
+      match σ !! nm with
+      | Some u' => if N.eqb u u' then name_map_lenient σ (S i) l'
+                   else (fst (name_map_lenient σ (S i) l'), Some i)
+      | None => name_map_lenient (<[nm := u]> σ) (S i) l'
+      end
+  | _ :: l' => name_map_lenient σ (S i) l'
+  end.
+
+(** a failing expansion fails the transaction at the operation at fault: the
+    operations before it are executed and have their results (one of them may
+    fail first), the operations after it have none *)
 Definition transact_named (S : schema) (d : dbstate) (l : list nop) : list result * option dbstate :=
   match expand l with
   | Ok ops => transact S d ops
-  | _ => (match l with [] => [] | _ :: l' => RErr EOther :: map (fun _ => RNull) l' end, None)
+  | _ =>
+      let '(σ, k) := name_map_lenient ∅ 0 l in
+      let k := default 0 k in
+      let '(rs, _, ok) := exec_ops S d d (subst_op σ <$> (n_op <$> take k l)) in
+      if ok then (rs ++ RErr EOther :: map (fun _ => RNull) (drop (Datatypes.S k) l), None)
+      else (rs ++ map (fun _ => RNull) (drop k l), None)
   end.
 
 (** the client API's Create: the insert generated for a model carries the model's own identity and nothing else - its
